@@ -99,3 +99,110 @@ Proof.
     rewrite (parse_rdata_post pname_dec s m pos lim v Hp).
     apply N.leb_le in Ht. rewrite Ht. reflexivity.
 Qed.
+
+(* ---- canonical form, label by label: no upper-case ASCII octet is left in
+   any label of a name that compose_canonical_rdata lower-cases *)
+Lemma lower_not_upper b : negb ((65 <=? lower b) && (lower b <=? 90)) = true.
+Proof. unfold lower. destruct ((65 <=? b) && (b <=? 90)) eqn:E; lia. Qed.
+
+Theorem canon_all_labels n :
+  Forall (fun l => Forall (fun b => negb ((65 <=? b) && (b <=? 90)) = true) l) (canon n) /\
+  map (@length N) (canon n) = map (@length N) n.
+Proof.
+  unfold canon. split.
+  - apply Forall_forall. intros l Hl. apply in_map_iff in Hl as [l0 [<- _]].
+    unfold lowers. apply Forall_forall. intros b Hb. apply in_map_iff in Hb as [b0 [<- _]].
+    apply lower_not_upper.
+  - rewrite map_map. apply map_ext. intros l. apply lowers_length.
+Qed.
+
+Theorem canonical_lowers_every_flagged_name s v :
+  compose_canonical s v = compose s (lower_flagged s v) /\
+  (forall f x, In (f, x) (combine (s_fields s) (lower_flagged s v)) -> is_lower f = true ->
+     forall n, x = VName n ->
+     Forall (fun l => Forall (fun b => negb ((65 <=? b) && (b <=? 90)) = true) l) n).
+Proof.
+  split; [apply canonical_only_lowercases|].
+  unfold lower_flagged. generalize (s_fields s) as l. intros l. revert v.
+  induction l as [|g l IH]; intros [|y v] f x Hin Hf n Hx; cbn [lower_flagged_fields combine In] in Hin;
+    try contradiction.
+  destruct Hin as [E|Hin]; [|eapply IH; eauto].
+  injection E as <- <-. destruct g as [| |c lw| | | | |]; try discriminate. destruct lw; [|discriminate].
+  destruct y; cbn [lower_field] in Hx; try discriminate. injection Hx as <-.
+  apply canon_all_labels.
+Qed.
+
+(* ---- the known constructor classes, one witness each, and what is excluded *)
+Definition big (k : N) : bytes := N.iter k (cons 0) [].
+
+Lemma ctor_long_witnesses :
+  (* ctor_long_TLSA, SSHFP, OPENPGPKEY, ZONEMD, CAA: the constructor accepts, rdlen() panics *)
+  (let v := [VNum 0; VNum 0; VNum 0; VBytes (big 65533)] in
+   ctor_accepts (plain [U8; U8; U8; Rest]) v = true /\ rdlen (plain [U8; U8; U8; Rest]) false v = Panic P_LONG) /\
+  (let v := [VNum 0; VNum 0; VBytes (big 65534)] in
+   ctor_accepts (plain [U8; U8; Rest]) v = true /\ rdlen (plain [U8; U8; Rest]) false v = Panic P_LONG) /\
+  (let v := [VBytes (big 65536)] in
+   ctor_accepts (plain [Rest]) v = true /\ rdlen (plain [Rest]) false v = Panic P_LONG) /\
+  (let v := [VNum 0; VNum 0; VNum 0; VBytes (big 65530)] in
+   ctor_accepts (plain [U32; U8; U8; FRest 12]) v = true /\ rdlen (plain [U32; U8; U8; FRest 12]) false v = Panic P_LONG) /\
+  (let v := [VNum 0; VBytes [97]; VBytes (big 65533)] in
+   ctor_accepts (plain [U8; CaaTagStr; Rest]) v = true /\ rdlen (plain [U8; CaaTagStr; Rest]) false v = Panic P_LONG) /\
+  (* ctor_long_IPSECKEY *)
+  (let v := [VNum 0; VNum 0; VNum 1; VBytes (big 65533)] in
+   ctor_accepts (ipseckey_schema 0) v = true /\ rdlen (ipseckey_schema 0) false v = Panic P_LONG).
+Proof. vm_compute. repeat split; reflexivity. Qed.
+
+Theorem ctor_long_refuted :
+  forall t, In t [52; 44; 61; 63; 257] ->
+  exists s v, schema_of t = Some s /\ ctor_accepts s v = true /\ rdlen s false v = Panic P_LONG.
+Proof.
+  pose proof ctor_long_witnesses as [H1 [H2 [H3 [H4 [H5 _]]]]].
+  intros t [<-|[<-|[<-|[<-|[<-|[]]]]]]; eexists; eexists; (split; [reflexivity|]).
+  - exact H1. - exact H2. - exact H3. - exact H4. - exact H5.
+Qed.
+
+Theorem ctor_long_ipseckey_refuted :
+  exists v, ctor_accepts (ipseckey_schema 0) v = true /\ rdlen (ipseckey_schema 0) false v = Panic P_LONG.
+Proof. pose proof ctor_long_witnesses as [_ [_ [_ [_ [_ H]]]]]. eexists. exact H. Qed.
+
+(* ctor_reparse_IPSECKEY: accepted by new(), refused by parse; everything else new() accepts
+   round-trips (exclusion: the key-less value with a key algorithm, over-long values) *)
+Theorem ctor_reparse_ipseckey_refuted :
+  ctor_accepts (ipseckey_schema 0) [VNum 10; VNum 0; VNum 2; VBytes []] = true /\
+  ipseckey_parse (compose (ipseckey_schema 0) [VNum 10; VNum 0; VNum 2; VBytes []]) 0 3 = Err E_SHORT.
+Proof. vm_compute. auto. Qed.
+
+Theorem ipseckey_ctor_sound g v pre post :
+  g <= 3 -> ctor_accepts (ipseckey_schema g) v = true ->
+  overlong (ipseckey_schema g) v = false -> post_ok (PIpseckey g) v = true ->
+  ipseckey_parse (pre ++ compose (ipseckey_schema g) v ++ post) (len pre)
+    (len pre + len (compose (ipseckey_schema g) v)) = Ok v /\
+  rdlen (ipseckey_schema g) false v = Ok (Some (len (compose (ipseckey_schema g) v))).
+Proof.
+  intros Hg Hc Ho Hp. apply ipseckey_parse_compose; [exact Hg|].
+  apply ctor_accepts_wf; auto.
+  unfold short_rest, ipseckey_schema, gateway_fields. cbn [s_fields].
+  destruct v as [|a [|b [|c v]]]; try reflexivity.
+  destruct (g =? 1); [|destruct (g =? 2); [|destruct (g =? 3)]]; cbn [app short_rest_fields U8 V4 V6 NameU Rest];
+    repeat match goal with |- context [match ?x with _ => _ end] => destruct x; try reflexivity end.
+Qed.
+
+(* svc_ctor_reparse_TLSGROUPS: TlsSupportedGroups::from_keys writes the keys one
+   after the other and checks only the total length *)
+Definition groups_from_keys (ks : list N) : bytes := concat (map (be 2) ks).
+
+Theorem tlsgroups_from_keys_refuted :
+  rest_check KGroups (groups_from_keys []) = Some E_FORM.
+Proof. reflexivity. Qed.
+
+Theorem tlsgroups_from_keys_sound ks :
+  ks <> [] -> rest_check KGroups (groups_from_keys ks) = None.
+Proof.
+  intros Hne. unfold rest_check, groups_from_keys.
+  assert (Hl : length (concat (map (be 2) ks)) = (2 * length ks)%nat).
+  { clear Hne. induction ks as [|k ks IH]; [reflexivity|]. cbn [map concat length].
+    rewrite app_length, be_length, IH. lia. }
+  rewrite Hl. destruct ks as [|k ks]; [congruence|].
+  replace (2 * length (k :: ks))%nat with (S (S (2 * length ks))) by (simpl; lia).
+  cbn [Nat.eqb negb andb]. rewrite Nat.even_succ_succ, Nat.even_mul. reflexivity.
+Qed.
